@@ -129,12 +129,15 @@ def check(run):
                 oracle_fail.append((cfg, "HRUN 1 0 - " + s[:2000], "memory returned", trailer))
         # equal copied strings are stored once and released when the last user disappears
         many = ((255, b"shared"), (256, b"shared"), (257, b"shared"), (300, b"k")) if defs.get("ARDUINOJSON_STRING_LENGTH_SIZE") == 1 else ()
-        for users, text in ((30, b"a-string-of-20-bytes"), (3, b""), (200, b"x" * 100)) + many:
+        for users, text in ((30, b"a-string-of-20-bytes"), (3, b""), (4, b""), (5, b""), (200, b"x" * 100), (7, b"q"), (8, b"q")) + many:
             if defs.get("ARDUINOJSON_SLOT_ID_SIZE") == 1 and users > 100:
                 continue
             s = script_dedup(users, text)
-            io, c2 = vlib.run_lines(impl, ["CFG " + cfg, "HRUN 1 0 - " + s])
-            run.count(("dedup", gi, users))
+            # the string given as std::string, or (every third case) as a sized JsonString / string_view that points into a
+            # longer buffer, so that the byte after it is not a terminator: equal strings are one node whatever carries them
+            skind = (0, 3, 6)[(users + len(text)) % 3] if b"\0" not in text else 0
+            io, c2 = vlib.run_lines(impl, ["CFG " + cfg, f"HRUN 1 {skind} - " + s])
+            run.count(("dedup", gi, users, skind))
             steps, trailer = histcheck.parse_run(io[1]) if len(io) > 1 else ([], "")
             if len(steps) != 1 + 2 * users:
                 oracle_fail.append((cfg, "HRUN 1 0 - " + s[:2000], "history runs", (c2 or "")[-300:])); continue
